@@ -61,6 +61,12 @@ def run(R):
                      "component by component the same expression shape (which parameter, which cast, which comparison). A key that encodes the "
                      "operator differently in one twin makes `try_apply(a, b, And)` hit the entry `apply(a, b, Or)` wrote")
     r9(R)
+    R.rule("C07-R10", "absence is not encoded by a value the allocator hands out: where the manager allocates an identifier as the current length of "
+                      "a table (`table.len()` before the push - the first one is 0) and records it in a per-variable slot, the test `is this "
+                      "variable already registered` does not compare that slot with a constant the allocator can produce. With `0` as `none`, "
+                      "the first registered variable looks unregistered: registering it again gives it a second vtree leaf and its literals two "
+                      "positions")
+    r10(R)
     R.rule("C07-R8", "decision nodes are built only through the canonicalising path: the raw node constructor is called from normalize_to "
                      "(wrapping for a higher vtree node) only, unique_d (compress + trim + unique table) from apply_same_vtree, negate and "
                      "normalize_to only, and compress from unique_d only - a shortcut that assembles a partition elsewhere bypasses the "
@@ -558,3 +564,99 @@ def r9(R):
             R.ob("C07-R9", "twin-keys:%s:%s" % (b.name, fld), "%s and %s build their %s keys alike" % (b.name, t.name, fld), same, where=t.where(),
                  detail=None if same else "key shapes differ: %s has %s, %s has %s" % (b.name, sorted(kb[fld])[:3], t.name, sorted(kt[fld])[:3]))
     R.floor("C07-R9", "(twin, cache) pairs compared", pairs, 2)
+
+
+
+def r10(R):
+    prog = R.prog
+    nalloc = 0
+    for k, b in sorted(prog.bodies.items()):
+        if b.crate != "shared" or not b.file.endswith("sdd.rs") or b.is_closure or "::tests::" in k or b.self_adt is None:
+            continue
+        # allocations: a local defined as (a cast of) `len()` of a field of self
+        allocs = set()
+        for c in b.calls():
+            if c.name() == "len" and c.dest is not None:
+                allocs.add(c.dest["l"])
+        if not allocs:
+            continue
+        grown = True
+        while grown:
+            grown = False
+            for bb, i, pl, rv, st in b.assigns():
+                if pl["l"] in allocs or pl["p"]:
+                    continue
+                if rv["rv"] in ("use", "cast") and F.op_place(rv.get("op") or {}) is not None and F.op_place(rv["op"])["l"] in allocs:
+                    allocs.add(pl["l"])
+                    grown = True
+        # stores of an allocated id into an indexed slot of a field of self: self.F[idx] = id
+        stores = {}
+        for bb, i, pl, rv, st in b.assigns():
+            fs = [e.get("n") for e in pl["p"] if e["k"] == "field"]
+            if fs and any(e["k"] in ("index", "constant_index") for e in pl["p"]) and rv["rv"] == "use" and F.op_place(rv["op"]) is not None and F.op_place(rv["op"])["l"] in allocs:
+                stores.setdefault(fs[0], []).append(st.get("ln") if isinstance(st, dict) else None)
+        # through IndexMut::index_mut(&mut self.F, idx) = id
+        for c in b.calls():
+            if c.name() == "index_mut" and c.dest is not None:
+                fld = _self_field(b, c.args[0])
+                if fld is None:
+                    continue
+                for bb, i, pl, rv, st in b.assigns():
+                    if pl["l"] == c.dest["l"] and any(e["k"] == "deref" for e in pl["p"]) and rv["rv"] == "use" and F.op_place(rv["op"]) is not None and F.op_place(rv["op"])["l"] in allocs:
+                        stores.setdefault(fld, []).append(c.ln)
+        for fld, lns in stores.items():
+            nalloc += 1
+            # guards: comparisons of a value read from the same field's slot with an integer constant
+            bad = []
+            for bb, i, pl, rv, st in b.assigns():
+                if rv["rv"] != "binop" or rv["op"] not in ("Eq", "Ne"):
+                    continue
+                for me, other in ((rv["a"], rv["b"]), (rv["b"], rv["a"])):
+                    v = F.const_int(other)
+                    if v is None or v != 0:
+                        continue
+                    if _reads_field_slot(b, me, fld):
+                        bad.append(st.get("ln") if isinstance(st, dict) else None)
+            R.ob("C07-R10", "sentinel:%s:%s" % (b.name, fld), "%s does not test `%s[..]` against 0 to mean `absent` (ids stored there start at 0)" % (b.name, fld), not bad,
+                 where=b.where(bad[0] if bad else lns[0]), detail=None if not bad else "the slot holds ids allocated as `len()` before the push - the first is 0 - and is "
+                 "compared with 0 to decide `not registered yet`")
+    R.ob("C07-R10", "scanned", "allocation sites (`id = table.len()` stored into a slot of the manager) scanned: %d" % nalloc, True)
+
+
+def _self_field(b, op):
+    pl = F.op_place(op)
+    for _ in range(5):
+        if pl is None:
+            return None
+        fs = [e.get("n") for e in pl["p"] if e["k"] == "field"]
+        if fs and pl["l"] == 1:
+            return fs[0]
+        ds = [d for d in b.defs().get(pl["l"], []) if d[0] == "assign" and d[3]["rv"] in ("ref", "use")]
+        if len(ds) != 1:
+            return None
+        pl = ds[0][3].get("pl") if ds[0][3]["rv"] == "ref" else F.op_place(ds[0][3].get("op") or {})
+    return None
+
+
+def _reads_field_slot(b, op, fld):
+    pl = F.op_place(op)
+    seen = set()
+    while pl is not None and pl["l"] not in seen:
+        seen.add(pl["l"])
+        fs = [e.get("n") for e in pl["p"] if e["k"] == "field"]
+        if fs and fs[0] == fld and pl["l"] == 1:
+            return True
+        ds = b.defs().get(pl["l"], [])
+        if len(ds) != 1:
+            return False
+        d = ds[0]
+        if d[0] == "call" and d[2].name() in ("index", "get", "deref", "copied", "unwrap_or", "unwrap_or_default") and d[2].args:
+            if _self_field(b, d[2].args[0]) == fld:
+                return True
+            pl = F.op_place(d[2].args[0])
+            continue
+        if d[0] == "assign" and d[3]["rv"] in ("use", "ref", "cast"):
+            pl = d[3].get("pl") if d[3]["rv"] == "ref" else F.op_place(d[3].get("op") or {})
+            continue
+        return False
+    return False
